@@ -252,9 +252,13 @@ def native_replay(slot, ob, caps, test_code, outdir, extra_consts=None, fail_loc
     shutil.rmtree(hdir, ignore_errors=True)
     if ran and failed:
         if fail_locs:
-            native = set(re.findall(r'panicked at ([^\s]+\.rs:\d+:\d+)', out))
-            native = set(loc_key(x) for x in native)
-            if not (native & set(fail_locs)):
+            native_full = set(re.findall(r'panicked at ([^\s]+\.rs:\d+:\d+)', out))
+            native = set(loc_key(x) for x in native_full)
+            # a failing check inside the Rust standard library (e.g. Result::unwrap -> unwrap_failed) is reported
+            # natively at its #[track_caller] call site in ska's own source
+            stdlib_fail = any(l.startswith('stdlib:') for l in fail_locs)
+            in_ska_src = any(x.startswith('src/') or '/src/' in x for x in native_full) and not any('verif' in x and 'harness' in x for x in native_full)
+            if not (native & set(fail_locs)) and not (stdlib_fail and in_ska_src):
                 return False, out + '\n[driver] native panic at %s does not match a failing check location %s\n' % (sorted(native), sorted(fail_locs))
         return True, out
     if ran and passed:
@@ -487,7 +491,7 @@ def replay_failure(slot, prop, ob, ov, caps, consts, logdir, unknown=None):
         json.dump(dict(meta, error='no concrete playback test produced'), open(os.path.join(outdir, 'meta.json'), 'w'), indent=1)
         return {'reproduced': None, 'why': 'no concrete playback test produced', 'path': outdir}
     open(os.path.join(outdir, 'test.rs'), 'w').write(test)
-    fail_locs = sorted(set(filter(None, [loc_key(u['loc']) for u in (unknown or [])])))
+    fail_locs = sorted(set(filter(None, [('stdlib:' + (loc_key(u['loc']) or '')) if '/library/' in u['loc'] else loc_key(u['loc']) for u in (unknown or [])])))
     meta['fail_locs'] = fail_locs
     reproduced, out = native_replay(slot, ob, caps, test, outdir, consts, fail_locs)
     msg = re.findall(r"panicked at .*?:\n(.*)", out)
